@@ -13,3 +13,4 @@ MODULES += ["validation"]
 # MODULES += ["json_"]   (json_default contract: work in progress)
 MODULES += ["testing"]
 MODULES += ["lemmas"]
+MODULES += ["generators"]
